@@ -11,9 +11,11 @@ ALLOWED_AXIOMS = []
 MODEL_INDEPENDENT_OF_PROOFS = True      # Model/Lattice.v contains no proofs
 TRUSTED = [
     "Coq 8.16.1 kernel + vm_compute (no native_compute)",
-    "hand model coq/Model/Lattice.v (index search, closest-node search, by-index guards, operators, average, rescale, "
-    "CSV row layout), tied to Lattice3D.py by this run's correspondence only (no translator: the code is control flow "
-    "around numpy primitives)",
+    "translator tools/py2coq/gen_lattice.py: reads the index guards of __is_valid_index (0 <= i < n on the three axes) and of "
+    "__get_value (index < 0 or index >= num_points, ValueError) from the source of this run",
+    "hand model coq/Model/Lattice.v (index search, closest-node search, operators, average, rescale, CSV row layout) around "
+    "those guards, tied to Lattice3D.py by this run's correspondence (the rest of the class is control flow around numpy "
+    "primitives)",
     "numpy primitives as their documented list semantics: searchsorted(side='right') = count of leading entries <= x on an "
     "ascending array, argmin = first minimum, linspace only through the axis arrays read from the object, np.mean = sum/count",
     "scipy.interpolate.interpn is an oracle with the law 'at a node it returns the node value' (sampled at every node of every "
@@ -937,8 +939,8 @@ LEVEL_TEXT = ("Theorems (Coq, any node counts, any strictly increasing axes, any
               "warns and touches nothing; operators, average, rescale are point-wise with TypeError/ValueError for wrong "
               "operands; after any sequence of set operations each node holds the last value written to it; "
               "load(save L) = L for extents, counts and every grid value from the round-trip law of the number format.")
-LEVEL_NOTE = ("Trusted: Coq kernel/vm_compute; the hand model Model/Lattice.v (no translator for this class) validated against "
-              "the real code by the correspondence of every run only; numpy searchsorted/argmin/linspace/mean as list "
+LEVEL_NOTE = ("Trusted: Coq kernel/vm_compute; translator gen_lattice (two index guards); the hand model Model/Lattice.v validated "
+              "against the real code by the correspondence of every run only; numpy searchsorted/argmin/linspace/mean as list "
               "semantics; scipy interpn and savetxt/loadtxt as oracles with one law each (sampled every run); exact "
               "rationals instead of IEEE rounding (nearest-node queries that tie within rounding are compared by the oracle "
               "only); aliasing by snapshots.")
